@@ -2,6 +2,7 @@ package main
 
 import (
 	"bytes"
+	"compress/gzip"
 	"fmt"
 	"io"
 	"os"
@@ -9,6 +10,8 @@ import (
 
 	"github.com/parquet-go/parquet-go"
 	"github.com/parquet-go/parquet-go/deprecated"
+	"github.com/parquet-go/parquet-go/encoding/thrift"
+	"github.com/parquet-go/parquet-go/format"
 )
 
 // C07: bloom filters never answer "absent" for a written value.
@@ -335,7 +338,31 @@ func c07Run(tr *tracer, sc *c07Scenario, typ string, variant int) {
 		chunk := rg.ColumnChunks()[0]
 		var bf parquet.BloomFilter
 		pan, msg := guard(func() { bf = chunk.BloomFilter() })
-		tr.emit("Filter", ev{"rg": g, "present": b2i(bf != nil && !pan), "configured": 1, "msg": msg})
+		// the filter as it lies in the file: header parsed here, bitset handed to the specification (Sbbf.tla)
+		fe := ev{"rg": g, "present": b2i(bf != nil && !pan), "configured": 1, "msg": msg, "bits": []int{}, "std": 0}
+		if md := f.Metadata().RowGroups[g].Columns[0].MetaData; md.BloomFilterOffset > 0 && int(md.BloomFilterOffset) < len(data) {
+			var hdr format.BloomFilterHeader
+			proto := thrift.CompactProtocol{}
+			rd := proto.NewReaderFromBytes(data[md.BloomFilterOffset:])
+			if err := thrift.NewDecoder(rd).Decode(&hdr); err == nil {
+				body := data[int(md.BloomFilterOffset)+rd.BytesRead():]
+				_, block := hdr.Algorithm.Value.(*format.SplitBlockAlgorithm)
+				_, xxh := hdr.Hash.Value.(*format.XxHash)
+				fe["std"] = b2i(block && xxh)
+				if _, gz := hdr.Compression.Value.(*format.BloomFilterGzip); gz {
+					// parquet-go extension: NumBytes is the compressed size
+					if zr, err := gzip.NewReader(bytes.NewReader(body[:min(int(hdr.NumBytes), len(body))])); err == nil {
+						if plain, err := io.ReadAll(zr); err == nil {
+							fe["bits"] = bytesToInts(plain)
+						}
+					}
+					fe["std"] = 0 // not a filter other readers understand; judged through the library only
+				} else if int(hdr.NumBytes) <= len(body) {
+					fe["bits"] = bytesToInts(body[:hdr.NumBytes])
+				}
+			}
+		}
+		tr.emit("Filter", fe)
 		if bf == nil || pan {
 			continue
 		}
